@@ -12,7 +12,10 @@ after every operation): a running-counter byte pattern makes every written byte
 unique, so "exactly the bytes written while connected, in order, each once" is a
 positional comparison; close only after the flush and never under a pull
 producer; streaming producer paused when the true backlog exceeds bufferSize,
-resumed when (and only when) it drained.
+resumed when (and only when) it drained; a pull producer asked when (and only
+when) nothing is buffered.  Refused calls (a second registerProducer while a
+producer is registered) are part of the histories: they must leave the
+registered producer's service untouched.
 """
 import os
 
@@ -35,11 +38,13 @@ COMPONENTS = {
              "twisted.internet.posixbase._DisconnectSelectableMixin._disconnectSelectable"],
     "stub": ["writeSomeData (the OS: tape-chosen accepted count or ConnectionLost)",
              "IReactorFDSet (records add/removeWriter; scheduler calls doWrite only while registered)",
-             "scripted push and pull producers",
+             "scripted push and pull producers (and second producers whose registration is refused)",
              "the application's list objects (kept, edited, passed again, passed to both descriptors)"],
 }
 RULE = ("run = 5..60 tape-chosen operations (write 0 B..1 MiB, writeSequence of list/tuple/one-shot iterator, doWrite, register/unregister "
-        "streaming or pull producer, producer-driven writes, loseConnection, loseWriteConnection) with per-descriptor bufferSize / SEND_LIMIT / "
+        "streaming or pull producer, producer-driven writes, loseConnection, loseWriteConnection; in 1 of 2 descriptors also registerProducer "
+        "of a second producer - of the same or of the other kind - while one is still registered, which is refused and after which the "
+        "application carries on with the producer that is registered) with per-descriptor bufferSize / SEND_LIMIT / "
         "acceptance policy / error rate, then a drain; in 3 of 4 runs the application treats the lists it passed to writeSequence as its own "
         "(edits them right after the call, keeps one and passes it again as is / refilled / extended); in 1 of 5 runs the operations are spread "
         "over two live descriptors which are also handed the same list objects (broadcast right after the first call, or later); "
@@ -53,6 +58,12 @@ ASSUMPTIONS = [
     "what writeSequence(list) writes is what the application put into that list before the call (the model keeps its own record of the "
     "content of the application's lists; nothing but the application is supposed to change them), whatever happens to the list afterwards",
     "the two live descriptors of a run are independent connections: bytes written to one never count as written to the other",
+    "registerProducer() while another producer is registered raises RuntimeError (IConsumer.registerProducer) and registers nothing: "
+    "the model keeps serving the producer that was registered, with its own kind (streaming or not); calls made to the refused producer get no verdict",
+    "honouring a non-streaming producer includes asking it (IPullProducer.resumeProducing: 'produce data for the consumer a single time'; "
+    "IConsumer.registerProducer: 'resumeProducing will be called each time data is required'): at registration and whenever doWrite "
+    "leaves nothing buffered; our pull producer writes at least one byte per call or unregisters, so a connected descriptor with a pull "
+    "producer, nothing buffered and not registered for writing can never make progress (no verdict once loseWriteConnection was called)",
 ]
 LEVEL_NOTE = ("second configuration of the design (same generator against tcp.Connection on a kernel model) is not part of this module; "
               "the descriptor here is the abstract base class every stream transport inherits its buffering from")
@@ -149,6 +160,7 @@ class Harness:
         self.tag = tag                   # "" = the first descriptor, "peer" = the second live descriptor of the run
         self.peer = None                 # the other live descriptor's harness, if the run has two
         self.g = g0                      # next unused PATTERN position
+        self.issued = 0                  # bytes passed to write()/writeSequence() on this descriptor so far, whatever became of them
         # ---- reference model
         self.connected = True
         self.lose_called = False
@@ -211,6 +223,7 @@ class Harness:
         data = b"".join(parts)
         if not data:
             return
+        self.issued += len(data)
         if not self.connected or self.halfclosed:
             self.sim.probe("write_dropped_not_connected")
             return
@@ -542,9 +555,9 @@ class Harness:
                 if sim.draw_bool(0.5, "lose_after_finish"):
                     self.do_lose()
             else:
-                n0 = self.g
+                n0 = self.issued
                 self.do_write("pull%d" % p.pid)
-                if self.g == n0 and self.producer is p:
+                if self.issued == n0 and self.producer is p:
                     # produced nothing: a pull producer that writes nothing would never be asked again
                     data = self.take(1)
                     self.note_write([data])
@@ -591,6 +604,27 @@ class Harness:
         finally:
             self.in_register = False
 
+    def do_register_refused(self):
+        """the application registers a producer although one is still registered: IConsumer.registerProducer refuses
+        (RuntimeError); the application shrugs and carries on - the producer that IS registered must be served as before"""
+        sim = self.sim
+        p = self.producer
+        streaming = sim.draw_bool(0.5, "streaming")
+        self.npid += 1
+        q = Producer(self, streaming, self.npid)
+        q.current = False           # never registered as far as the model is concerned
+        self.ev("app", "registerProducer", q.pid, "streaming" if streaming else "pull", "while-registered", p.pid)
+        sim.fault("register_refused")
+        sim.probe("register_refused_same_kind" if streaming == p.streaming else "register_refused_other_kind")
+        refused = False
+        with sim.guard("registerProducer-raised", "second-producer"):
+            try:
+                self.fd.registerProducer(q, streaming)
+            except RuntimeError:
+                refused = True
+        sim.check("second-producer-refused", refused, "producer-registered",
+                  "registerProducer() with another producer still registered did not raise RuntimeError (IConsumer.registerProducer)")
+
     def do_unregister(self):
         p = self.producer
         self.ev("app", "unregisterProducer", p.pid)
@@ -602,6 +636,8 @@ class Harness:
     def do_dowrite(self):
         sim = self.sim
         self.ev("reactor", "doWrite")
+        p0 = self.producer
+        resumes0 = p0.resumes if p0 is not None else 0
         self.in_dowrite = True
         try:
             with sim.guard("doWrite-raised"):
@@ -614,6 +650,9 @@ class Harness:
             p = self.producer
             if p is not None and p.streaming and p.paused and not self.lw_called and self.backlog == 0:
                 sim.fail("resume-when-drained", "streaming", "buffer fully drained by doWrite but the paused streaming producer was not resumed")
+            if (p is not None and p is p0 and not p.streaming and not self.lw_called and self.backlog == 0
+                    and p.resumes == resumes0):
+                sim.fail("pull-asked-when-drained", "pull", "buffer fully drained by doWrite but the registered non-streaming producer was not asked for more data")
 
     def invariants(self):
         sim = self.sim
@@ -622,6 +661,11 @@ class Harness:
                       "%d bytes written while connected are not handed over and the descriptor is not registered for writing" % (len(self.expected) - self.acc))
         if self.connected and self.lose_called and not self.reactor.writing and self.producer is None:
             sim.fail("close-pending-but-idle", "loseConnection", "loseConnection was called, nothing buffered, no pull producer, yet the descriptor is idle and open")
+        p = self.producer
+        if (self.connected and p is not None and not p.streaming and not self.lw_called and not self.reactor.writing
+                and self.backlog == 0 and self.g < len(PATTERN)):
+            sim.fail("pull-producer-starved", "idle", "a non-streaming producer is registered, nothing is buffered and the descriptor is idle: "
+                     "nobody will ever ask the producer for its data (resumes=%d)" % p.resumes)
         sim.state((self.connected, self.lose_called, self.lw_called, self.halfclosed,
                    None if self.producer is None else (self.producer.streaming, self.producer.paused),
                    min(self.backlog, 3), self.reactor.writing))
@@ -648,6 +692,7 @@ def configure(sim, h, primary):
     h.pull_finish_p = sim.draw_choice([0.2, 0.05, 0.5], "pull_finish_p")
     h.push_writes_on_resume = sim.draw_bool(0.5, "push_writes_on_resume")
     h.lw_ok = sim.draw_bool(0.35, "lw_ok")
+    h.dup_register_ok = sim.draw_bool(0.5, "dup_register_ok")
     h.accept_weights = {
         "all": [("all", 1), ("err", 0)],
         "generous": [("all", 8), ("some", 3), ("zero", 1), ("one", 1), ("limit", 1), ("err", err_w)],
@@ -659,7 +704,7 @@ def configure(sim, h, primary):
     fd.bufferSize = buffer_size
     fd.SEND_LIMIT = send_limit
     return {"bufferSize": buffer_size, "SEND_LIMIT": send_limit, "accept": accept_mode, "err_weight": err_w,
-            "os_limit": h.os_limit, "iter_ok": h.iter_ok, "lw_ok": h.lw_ok}
+            "os_limit": h.os_limit, "iter_ok": h.iter_ok, "lw_ok": h.lw_ok, "dup_register_ok": h.dup_register_ok}
 
 
 def one_op(sim, h):
@@ -669,6 +714,7 @@ def one_op(sim, h):
         ("doWrite", 9 if h.reactor.writing else 0),
         ("register", 2 if (p is None) else 0),
         ("unregister", 1 if (p is not None) else 0),
+        ("registerRefused", 1 if (p is not None and h.connected and h.dup_register_ok) else 0),
         ("produce", 5 if (p is not None and p.streaming and not p.paused and h.connected) else 0),
         ("lose", 1 if not h.lose_called else 0),
         ("loseWrite", 1 if (h.lw_ok and not h.lw_called and h.connected) else 0),
@@ -682,6 +728,8 @@ def one_op(sim, h):
         h.do_register()
     elif op == "unregister":
         h.do_unregister()
+    elif op == "registerRefused":
+        h.do_register_refused()
     elif op == "produce":
         h.do_write("push%d" % p.pid)
     elif op == "lose":
@@ -770,5 +818,13 @@ MUTANTS = [
     "registered-while-pending; by the list-edit family alone and by the two-descriptor family alone)",
     "writeSequence: a list argument is queued as one element (no copy) and flattened only by doWrite's merge -> CAUGHT "
     "(offered-in-order / registered-while-pending)",
+    "doWrite: `(not streamingProducer) or producerPaused` -> `streamingProducer and producerPaused` without loseConnection in the history -> CAUGHT "
+    "(pull-asked-when-drained)",
+    "registerProducer: `self.producer = producer` before the RuntimeError of a refused second registration (half-done refusal) -> CAUGHT "
+    "(pause-when-full / pull-asked-when-drained / stop-once-on-loss; needs the refused-registration family)",
+    "registerProducer: streaming flag assigned before the refusal check (refused call of the other kind flips the registered producer's kind) -> CAUGHT "
+    "(pause-when-full / closed-under-pull-producer / pull-asked-when-drained; needs the refused-registration family)",
+    "registerProducer: no resumeProducing() for a non-streaming producer at registration -> CAUGHT (pull-producer-starved)",
+    "registerProducer: second registration not refused (`if self.producer is not None` -> `if 0`) -> CAUGHT (second-producer-refused)",
     "doWrite: `elif self.disconnecting and not self._tempDataLen` -> survives (equivalent: _tempDataLen is 0 in that branch)",
 ]
